@@ -12,10 +12,15 @@ through plain functions, methods (bound and through the class), classmethods and
 an instance), pure functions, async_proxy functions, asynq.async_call, @deduplicate() functions and non-generator functions,
 with positional and keyword arguments, with and without an explicit asyncio_fn, declared with or without sync_fn= (the callee
 of a plain synchronous call then is that sync_fn - which must not run while the flag is on); with fresh decorated functions
-for every run or one set shared by the five runs in a random order; first or second use; and under five INTERACTIONS that the
+for every run or one set shared by the five runs in a random order; first or second use; and under seven INTERACTIONS that the
 model does not distinguish (usage flags): one constant object yielded again and again (`reuse`), one decorator object applied
 to many functions (`onedeco`), every run on a fresh thread (`thread`), bound wrappers used through copy.copy() (`copyb`),
-garbage collections between runs and at every resumption (`gc`).
+garbage collections between runs and at every resumption (`gc`), WHAT is decorated is not a function - a functools.partial, a
+callable object without __name__, a partial of a partial - (`wrapc`: the refusal of a plain synchronous call must be the
+RuntimeError whatever the callee is), an explicit asyncio_fn= that is not an `async def` - a plain function returning the
+coroutine / a generic awaitable with __await__ only / an asyncio Task, a partial of the coroutine function, objects with an async
+__call__ or a __call__ returning a generic awaitable - (`afnobj`: what such an asyncio_fn returns reaches the yield of the
+enclosing function, bare or inside list / tuple / dict, and has to be awaited like a coroutine).
 The Lean model (AsynqModel.Lib.Asyncio) runs the same program (correspondence, per-task form of the logs) and the Lean
 observer `Asyncio.specClauseP` judges the implementation's observations:
   observation-only clauses (`Asyncio.spec`): flag off before / after / on inside, siblings complete, synchronous calls refused
@@ -101,7 +106,10 @@ RULE = ("corpus (21 minimised programs), a fixed family (every call kind x expli
         "reached through the instance or the class, positional or keyword arguments - as the callee of a plain synchronous call "
         "(at the root and inside a gathered child), as a child under a bare and a gathered yield and as the root; one constant "
         "object - 7 shapes - yielded twice by a body, by a child, inside other structures, by every one of the five runs sharing "
-        "it, by the second use), a "
+        "it, by the second use; every declaration over a functools.partial / a callable object / a partial of a partial as the "
+        "callee of a plain synchronous call, as child and as root - usage flag wrapc -; every declaration with asyncio_fn= written "
+        "in 6 forms that are not `async def` as a child under a bare yield, inside list / tuple / dict, one level down, failing "
+        "beside a sibling with a handler that goes on, through asynq.async_call - usage flag afnobj), a "
         "value family (13 unusual kinds of returned object x 7 places a value travels through x call kinds), SIZE families with "
         "the size as a parameter (wide: one yield of 5..513 (thorough ..2049) entries with failures at chosen positions, list / "
         "tuple / dict, nested or not; deep: containers nested 4..100 (..200) levels; long: one generator resumed 5..1001 (..2500) "
@@ -115,7 +123,9 @@ RULE = ("corpus (21 minimised programs), a fixed family (every call kind x expli
         "(except Exception or except BaseException) or no handler at every yield, plain synchronous calls (the malformed stream: "
         "non-futures and synchronous calls under asyncio); each program is run in five ways (call, value, aio, aiorun, aiotask) "
         "with fresh or shared decorated functions, first or second use, and the usage flags reuse (1/2) / onedeco (3/10) / "
-        "thread (12%) / copyb (15%) / gc (6%). non-trivial = at least 2 tasks and (a failure delivered "
+        "thread (12%) / copyb (15%) / gc (6%), and - outside the open findings - wrapc (35% of the programs with a synchronous call, 8% "
+        "of the others) / afnobj (35% of the programs with an explicit asyncio_fn on a call site other than the root; the form by "
+        "the label of the call site or one form everywhere). non-trivial = at least 2 tasks and (a failure delivered "
         "at a yield or a nested structure); distinct by case hash")
 TRUSTED = [
     "hand-written Lean model AsynqModel.Lib.Asyncio tied to the code by this differential run only; its reference evaluator "
@@ -126,7 +136,9 @@ TRUSTED = [
     "awaited through a harness wrapper that logs the end of a task whose abandoned generator cannot; tasks inside a "
     "container-subclass instance or inside what an async_proxy function returned count for 'all yielded together have "
     "completed' only if the engine started them; the usage flags reuse / onedeco / thread / copyb / gc change how the "
-    "harness uses the public API, never what the model is given)",
+    "harness uses the public API, never what the model is given; so do wrapc / afnobj: no theorem speaks about WHAT is "
+    "decorated or HOW an asyncio_fn is written - the model has one refusal for every callee and one `await` for every asyncio_fn, "
+    "and the two flags are judged by the correspondence with it and by the observer alone)",
     "asyncio event loop, contextvars (ensure_future copies the context), CPython generator/with semantics",
 ]
 ASSUMPTIONS = [
@@ -154,6 +166,12 @@ ASSUMPTIONS = [
     "function's .asyncio())",
     "asynq.result(x) of a future-like x asserts on both engines alike and is not generated; allow_sync_call=True (the "
     "documented opt-out of the refusal) is not generated",
+    "usage flags wrapc / afnobj: the ROOT call keeps an `async def` asyncio_fn (asyncio.run / ensure_future of the harness want a "
+    "coroutine); bound methods and objects with a generator __call__ are not decorated (qcore's DecoratorBase unwraps a bound "
+    "method like a classmethod object; `inspect` does not take such an object for a generator function); the flags are inert in "
+    "programs inside the three open findings (a yielded object that one engine never awaits would leave an eagerly made Task "
+    "unfinished); NOT generated: a decorated callable object without __name__ whose __repr__ raises (the refusal message formats "
+    "the callee: the exception of __repr__ then replaces the RuntimeError - seen by hand on the unchanged tree, see INTEGRATION.md)",
     "the ROOT function of a case is declared without sync_fn (with one, fn(args) IS sync_fn(args) by definition - comparing "
     "fn.asyncio(args) with it is not what the property states); every other call site may be; a sync_fn= is a faithful "
     "synchronous version of the function (here: it logs and makes the plain synchronous call of the function declared "
@@ -187,6 +205,8 @@ AFN_KINDS = ("gen", "meth", "proxy", "plain")
 #             bind = 1: kind meth as a classmethod, 2: as a staticmethod (access paths that the model does not distinguish)
 # ---------------------------------------------------------------------------------------------------
 SFN_KINDS = ("gen", "meth", "plain")
+WRAPC_KINDS = ("gen", "plain", "dedup", "proxy")   # usage flag wrapc: kinds whose decorated callable may be a partial / an object
+AFN_FORMS = 6                                      # usage flag afnobj: ways of writing an asyncio_fn that is not `async def`
 BIND_NAMES = ("", "classmethod", "staticmethod")
 
 
@@ -859,6 +879,110 @@ def usage(case, rng):
 
 
 USAGE_FLAGS = (("reuse", 0.5), ("onedeco", 0.3), ("thread", 0.12), ("copyb", 0.15), ("gc", 0.06))
+# two more interactions, set by `plan` only (`usage` keeps its random stream: checks/corecommon.py draws from gen_case):
+#   wrapc   WHAT is decorated is not a function: a functools.partial of one, a callable object without __name__ (functions that
+#           are not generators), a partial of a partial binding a keyword (generators) - kinds gen / plain / dedup / proxy, the sync_fn too
+#   afnobj  an explicit asyncio_fn= (of a call site other than the root) is not an `async def`: a plain function returning the
+#           coroutine / a generic awaitable (object with __await__ only) / an asyncio Task, a functools.partial of the coroutine
+#           function, objects with an `async def __call__` / a __call__ returning a generic awaitable
+# value 1: the form is chosen by the label of the call site ((label // 2) % number of forms); value v >= 2: form v - 1 everywhere
+USAGE_FLAGS2 = (("wrapc", 2), ("afnobj", AFN_FORMS))
+ALL_USAGE_KEYS = tuple(k for k, _ in USAGE_FLAGS) + tuple(k for k, _ in USAGE_FLAGS2)
+
+
+def in_open_finding(p):
+    return has_base_handler_and_raise(p) or bool(ys_tags(p) & (set(SUB_TAGS) | {"pval"}))
+
+
+def has_child_afn(p):
+    """is some call site other than the root declared with an explicit asyncio_fn?"""
+    for q in walk_progs(p):
+        if q[0] in YLD:
+            if any(isinstance(x, list) and x[0] == "task" and x[1][1] for x in walk_ys(q[1])):
+                return True
+    return False
+
+
+def drop_flags2(case):
+    return {k: v for k, v in case.items() if k not in ("wrapc", "afnobj")}
+
+
+def has_wrapc_site(p, c=None):
+    return (c is not None and c[0] in WRAPC_KINDS) or any(
+        (q[0] == "sync" and q[1][0] in WRAPC_KINDS)
+        or (q[0] in YLD and any(isinstance(x, list) and x[0] == "task" and x[1][0] in WRAPC_KINDS for x in walk_ys(q[1])))
+        for q in walk_progs(p))
+
+
+def usage2(case, rng):
+    """the usage flags wrapc / afnobj of a planned case (only where they change something)"""
+    r1, r2, r3, r4 = rng.random(), rng.random(), rng.random(), rng.random()
+    if "fam" in case and case["fam"] not in ("wide", "chain"):
+        return case
+    c, p = expand(case)
+    if in_open_finding(p):
+        # one divergence per program (see `signature`); a yielded object that one engine never awaits would leave an eagerly
+        # made Task of an asyncio_fn unfinished at the yield
+        return case
+    if "wrapc" not in case and has_wrapc_site(p, c) and r1 < (0.35 if has_sync(p) else 0.08):
+        case["wrapc"] = 1 if r2 < 0.7 else 2 + int(r2 * 1000) % 2
+    if "afnobj" not in case and has_child_afn(p) and r3 < 0.35:
+        case["afnobj"] = 1 if r4 < 0.6 else 2 + int(r4 * 1000) % AFN_FORMS
+    return case
+
+
+def family_callables():
+    """the two interactions of USAGE_FLAGS2, every form: (a) every declaration of a function over a functools.partial / a
+    callable object / a partial of a partial as the callee of a plain synchronous call (refused with the RuntimeError while the flag is
+    on, whatever is decorated; `.asynq()` of it keeps working), as a child and as the root; (b) every declaration with an explicit
+    asyncio_fn= written in every form that is not `async def`, as a child under a bare yield, inside list / tuple / dict, one
+    level down, failing beside a sibling with a handler that goes on, through asynq.async_call.  Kept apart from `family()`,
+    which checks/corecommon.py reuses."""
+    cases = []
+    decls = variants(("gen", "plain", "dedup")) + [("proxy", 0, 0), ("proxy", 1, 0)]
+    for form in (1, 2):
+        for kind, afn, var in decls:
+            # labels: (label // 2) % 2 is irrelevant here (the form is fixed), label % 2 = keyword argument, % 5 == 3 async_call
+            c1 = mk_call(kind, afn, 4, var)
+            c2 = mk_call(kind, afn, 9, var)
+            c3 = mk_call(kind, afn, 13, var)
+            yb = ["ret", 5] if kind == "plain" else ["yld", "none", ["ret", 5], ["reraise"]]
+            w = {"wrapc": 1 + form}
+            cases.append(dict(w, top=[["gen", 0, 0], ["sync", c1, ["ret", 4], ["yld", ["task", c2, ["ret", 5]], ["ret", 1], ["reraise"]],
+                                                      ["yld", ["task", c2, yb], ["ret", 2], ["reraise"]]]]))
+            cases.append(dict(w, top=[["gen", 0, 0], ["yld", ["lst", ["task", ["meth", 0, 1], ["sync", c1, ["raise", 4], ["ret", 1], ["reraise"]]],
+                                                              ["const", 3]], ["ret", 1], ["ret", 2]]]))
+            cases.append(dict(w, top=[["gen", 0, 0], ["sync", c3, ["ret", 4], ["ret", 1], ["sync", c2, ["ret", 4], ["ret", 2], ["ret", 3]]]]))
+            cases.append(dict(w, top=[["meth", 0, 0], ["yld", ["tup", ["task", c1, yb], ["task", c2, ["raise", 6]]], ["ret", 1], ["ret", 2]]]))
+            if var % 2 == 0:
+                cases.append(dict(w, top=[mk_call(kind, afn, 0, var),
+                                          ["ret", 3] if kind == "plain" else ["yld", ["lst", ["task", c1, ["ret", 5]]], ["ret", 1], ["ret", 2]]]))
+    # by label: a partial and an object side by side
+    cases.append({"wrapc": 1, "top": [["gen", 0, 0], ["sync", ["plain", 0, 4], ["ret", 4], ["ret", 1],
+                                                       ["sync", ["plain", 0, 6], ["ret", 4], ["ret", 2],
+                                                        ["sync", ["gen", 0, 8], ["ret", 4], ["ret", 3], ["sync", ["gen", 0, 10], ["ret", 4], ["ret", 5], ["ret", 6]]]]]]})
+    for form in range(1, AFN_FORMS + 1):
+        a = {"afnobj": 1 + form}
+        for kind, _, var in [v for v in variants(("gen", "meth", "plain")) if v[1] == 1] + [("proxy", 1, 0)]:
+            ok = ["ret", 5] if kind == "plain" else ["yld", ["const", 1], ["ret", 5], ["reraise"]]
+            bad = ["raise", 2] if kind == "plain" else ["yld", "none", ["raise", 2], ["reraise"]]
+            t1 = ["task", mk_call(kind, 1, 4, var), ok]
+            t2 = ["task", mk_call(kind, 1, 6, var), ok]
+            t3 = ["task", mk_call(kind, 1, 9, var), bad]
+            t4 = ["task", mk_call(kind, 1, 13, var), ok]       # through asynq.async_call, keyword argument
+            plain_task = ["task", ["gen", 0, 2], ["ret", 7]]
+            cases.append(dict(a, top=[["gen", 0, 0], ["yld", t1, ["ret", 1], ["ret", 2]]]))
+            cases.append(dict(a, top=[["gen", 0, 0], ["yld", t3, ["ret", 1], ["yld", t4, ["ret", 3], ["reraise"]]]]))
+            cases.append(dict(a, top=[["meth", 0, 0], ["yld", ["dict", [7, ["lst", t1, "none", ["const", 3]]], [2, ["tup", t2, plain_task]]],
+                                                       ["ret", 1], ["reraise"]]]))
+            cases.append(dict(a, top=[["gen", 0, 0], ["yld", ["lst", t1, t3, plain_task], ["ret", 1], ["yld", t2, ["ret", 3], ["reraise"]]]]))
+            cases.append(dict(a, top=[["gen", 1, 0], ["yld", ["tup", ["task", ["gen", 0, 3], ["yld", ["lst", t1], ["ret", 1], ["reraise"]]], t4],
+                                                      ["ret", 1], ["ret", 2]]]))
+    # by label: all forms beside one another in one yield
+    many = ["lst"] + [["task", ["gen", 1, 2 * i + 2], ["yld", "none", ["ret", i % 10], ["reraise"]]] for i in range(AFN_FORMS)]
+    cases.append({"afnobj": 1, "top": [["gen", 0, 0], ["yld", many, ["ret", 1], ["ret", 2]]]})
+    cases.append({"afnobj": 1, "wrapc": 1, "top": [["gen", 0, 0], ["yld", many, ["sync", ["plain", 1, 6], ["ret", 1], ["ret", 2], ["ret", 3]], ["ret", 2]]]})
+    return cases
 
 
 def value_family():
@@ -909,12 +1033,19 @@ def plan(tier, seed):
     rng_u = random.Random(seed * 1000003 + 17)
     for c in fixed:
         usage(c, rng_u)
-    cases = corpus() + fixed
-    cases += size_family(tier, random.Random(seed * 1000003 + 16))
-    cases += [gen_case(rng) for _ in range(n)]
+    special = family_callables()
+    for c in special:
+        usage(c, rng_u)
+    cases = corpus() + fixed + special
+    planned = size_family(tier, random.Random(seed * 1000003 + 16))
+    planned += [gen_case(rng) for _ in range(n)]
     rng_o = random.Random(seed * 1000003 + 18)
-    cases += [gen_case(rng_o, ofut=True) for _ in range(n // 25)]
-    return cases
+    planned += [gen_case(rng_o, ofut=True) for _ in range(n // 25)]
+    # what is decorated / how an asyncio_fn is written (a stream of its own: everything above is what it was without them)
+    rng_x = random.Random(seed * 1000003 + 19)
+    for c in fixed + planned:
+        usage2(c, rng_x)
+    return cases + planned
 
 
 # ---------------------------------------------------------------------------------------------------
@@ -1023,9 +1154,14 @@ def prog_size(p):
 
 
 def shrink_usage(case):
-    for key, _ in USAGE_FLAGS:
+    for key in ALL_USAGE_KEYS:
         if case.get(key):
             yield {k: v for k, v in case.items() if k != key}
+    for key, nforms in USAGE_FLAGS2:
+        if case.get(key) == 1:
+            # one form everywhere instead of a form per label
+            for form in range(1, nforms + 1):
+                yield dict(case, **{key: 1 + form})
     if case.get("warm"):
         yield {k: v for k, v in case.items() if k != "warm"}
     if case.get("share"):
@@ -1099,7 +1235,7 @@ def neighbours(case, rng):
             yield q
         for m in (case[key] + 1, case[key] + 2, 2 * case[key]):
             yield dict(case, **{key: m})
-        for k in ("share", "warm") + tuple(k for k, _ in USAGE_FLAGS):
+        for k in ("share", "warm") + ALL_USAGE_KEYS:
             yield dict(case, **{k: 0 if case.get(k) else 1})
         return
     rest = {k: v for k, v in case.items() if k != "top"}
@@ -1113,7 +1249,7 @@ def neighbours(case, rng):
             yield dict(rest, top=[[kind, afn, 0], p])
     for q in shrink(case):
         yield q
-    for k, _ in USAGE_FLAGS:
+    for k in ALL_USAGE_KEYS:
         yield dict(case, **{k: 0 if case.get(k) else 1})
     # every declaration of the callees of the synchronous calls
     if has_sync(p):
@@ -1179,7 +1315,9 @@ def signature(case, v):
         if tags & set(OFUT_TAGS):
             # resolve_awaitables knows ConstFuture only: an ErrorFuture / a lazy Future at a yield is a TypeError under asyncio
             return "non-const-future-yield-rejected-by-asyncio"
-    if clause == "fail:sync-refused" and has_dedup_sync(expand(case)[1]):
+    # (the usage flags - wrapc / afnobj included - are not part of a signature: the replay file shows the shrunk case, from which
+    # the shrinker has dropped every flag that is not needed; inside the open findings above wrapc / afnobj are inert)
+    if clause == "fail:sync-refused" and has_dedup_sync(expand(case)[1]) and not case.get("wrapc"):
         # (repaired in /repo 6bd88f6; the signature of the former finding is kept) AsyncDecorator.__call__ built its RuntimeError
         # message with inspect.getsourcefile(self.fn); self.fn of a DeduplicateDecorator is a decorator object: TypeError
         return "sync-call-of-deduplicated-function-raises-TypeError-in-asyncio-mode"
@@ -1372,6 +1510,10 @@ class Harness(object):
         self.onedeco = bool(opts.get("onedeco"))
         self.copyb = bool(opts.get("copyb"))
         self.gc = bool(opts.get("gc"))
+        # wrapc / afnobj: 0 off, 1 the form is chosen by the label of the call site, v >= 2 the form v - 1 everywhere
+        self.wrapc = int(opts.get("wrapc") or 0)
+        self.afnobj = int(opts.get("afnobj") or 0)
+        self.root_label = 0       # set by run()
         self.consts = {}          # reuse: the ONE object of every constant structure
         Harness._serial[0] += 1
         self.serial = Harness._serial[0]
@@ -1387,6 +1529,7 @@ class Harness(object):
             return pdeco0 if (pdeco0 is not None and not kw) else asynq.async_proxy(**kw)
 
         self.adeco = adeco
+        self.pdeco = pdeco
 
         @asynq.asynq(pure=True)
         def pure_fn(label, body):
@@ -1403,6 +1546,8 @@ class Harness(object):
         @pdeco(asyncio_fn=g_proxy)
         def proxy_fn_afn(label, body):
             return H.fn_for("gen", 0, 0).asynq(label, body)
+
+        self.g_proxy = g_proxy
 
         @pdeco()
         def pconst_fn(v):
@@ -1426,16 +1571,110 @@ class Harness(object):
         self.pconst_fn = pconst_fn
         self.pval_fn = pval_fn
         self.pure_fn = pure_fn
-        self.fns = {("proxy", 0, 0): proxy_fn, ("proxy", 1, 0): proxy_fn_afn}
+        self.fns = {("proxy", 0, 0, 0, 0): proxy_fn, ("proxy", 1, 0, 0, 0): proxy_fn_afn}
+
+    # ------------------------------------------------------------------ forms of the wrapped callable / of the asyncio_fn
+    def wform(self, kind, label):
+        """usage flag `wrapc`: WHAT is decorated.  0 a function; 1 a functools.partial of one; 2 a callable object (functions
+        that are not generators: an instance with __call__ and no __name__) / a partial of a partial with a keyword (generators)"""
+        if not self.wrapc or label is None or kind not in WRAPC_KINDS:
+            return 0
+        return 1 + (label // 2) % 2 if self.wrapc == 1 else min(self.wrapc - 1, 2)
+
+    def aform(self, afn, label):
+        """usage flag `afnobj`: HOW an explicit asyncio_fn= is written (never for the root call: asyncio.run and
+        ensure_future of the harness want what `async def` gives).  0 `async def`; see `wrap_afn`"""
+        if not self.afnobj or not afn or label is None or label == self.root_label:
+            return 0
+        return 1 + (label // 2) % AFN_FORMS if self.afnobj == 1 else min(self.afnobj - 1, AFN_FORMS)
+
+    def wrap_afn(self, g, form):
+        """an asyncio_fn that is not an `async def`: the asyncio version `g` (a coroutine function) offered as
+        1 a plain function returning the coroutine          2 a plain function returning a generic awaitable (an object with
+        __await__ only: neither a coroutine nor an asyncio future)      3 a plain function returning an asyncio Task
+        4 a functools.partial of the coroutine function     5 an object with `async def __call__`
+        6 an object whose __call__ returns a generic awaitable"""
+        import functools
+        asyncio = self.asyncio
+        if form == 0:
+            return g
+
+        class Deferred(object):
+            def __init__(self, coro):
+                self.coro = coro
+
+            def __await__(self):
+                return self.coro.__await__()
+
+        if form == 1:
+            def f(*a, **k):
+                return g(*a, **k)
+            return f
+        if form == 2:
+            def f(*a, **k):
+                return Deferred(g(*a, **k))
+            return f
+        if form == 3:
+            def f(*a, **k):
+                return asyncio.ensure_future(g(*a, **k))
+            return f
+        if form == 4:
+            return functools.partial(g)
+        if form == 5:
+            class AsyncCallable(object):
+                async def __call__(self, *a, **k):
+                    return await g(*a, **k)
+            return AsyncCallable()
+        if form == 6:
+            class DeferredCallable(object):
+                def __call__(self, *a, **k):
+                    return Deferred(g(*a, **k))
+            return DeferredCallable()
+        raise IllFormed("no such form of an asyncio_fn: %r" % (form,))
+
+    def wrap_callable(self, f, form, gen):
+        """`f(label, body)` as something that is not a function (forms of `wform`)"""
+        import functools
+        if form == 0:
+            return f
+        if form == 1:
+            if gen:
+                def f1(extra, *a, **k):       # a generator function, as `f` is
+                    return (yield from f(*a, **k))
+            else:
+                def f1(extra, *a, **k):
+                    return f(*a, **k)
+            return functools.partial(f1, 0)
+        if gen:
+            # (qcore's DecoratorBase takes a bound method for a classmethod-like object and unwraps it: not a way to declare an
+            # asynq function; an object with a generator __call__ is not a generator function for `inspect`)
+            def f2(extra, *a, extra2=None, **k):
+                return (yield from f(*a, **k))
+            return functools.partial(functools.partial(f2, 0), extra2=0)
+        else:
+            class CallableObject(object):
+                def __call__(self, *a, **k):
+                    return f(*a, **k)
+            return CallableObject()
 
     # ------------------------------------------------------------------ declarations (built when first used)
-    def fn_for(self, kind, afn, var):
-        """the function of kind gen / plain / dedup / proxy declared with (afn, var)"""
-        f = self.fns.get((kind, afn, var))
+    def fn_for(self, kind, afn, var, label=None):
+        """the function of kind gen / plain / dedup / proxy declared with (afn, var); `label`: the call site (it selects the
+        form of the decorated callable and of the asyncio_fn under the usage flags wrapc / afnobj)"""
+        wf, af = self.wform(kind, label), self.aform(afn, label)
+        key = (kind, afn, var, wf, af)
+        f = self.fns.get(key)
         if f is not None:
             return f
         asynq, asyncio, H = self.asynq, self.asyncio, self
         sfn = var % 2
+        if kind == "proxy" and not var:
+            # @async_proxy() over a partial / a callable object, asyncio_fn= in one of the forms of `wrap_afn`
+            def pimpl(label, body):
+                return H.fn_for("gen", 0, 0).asynq(label, body)
+            kw = {"asyncio_fn": self.wrap_afn(self.g_proxy, af)} if afn else {}
+            f = self.fns[key] = self.pdeco(**kw)(self.wrap_callable(pimpl, wf, False))
+            return f
         if kind not in ("gen", "plain", "dedup") or not valid_call([kind, afn, 0, var]):
             raise IllFormed("no such declaration %r" % ((kind, afn, var),))
         if kind != "plain":
@@ -1444,6 +1683,7 @@ class Harness(object):
         else:
             def impl(label, body):
                 return H.straight(label, body)
+        impl = self.wrap_callable(impl, wf, kind != "plain")
         if kind == "dedup":
             # @deduplicate() over @asynq(): DeduplicateDecorator has its own asynq() / asyncio() (asynq/tools.py); the key is the
             # label (programs are trees: no two live tasks share it)
@@ -1453,25 +1693,26 @@ class Harness(object):
         else:
             kw = {}
             if afn or sfn:
-                base = self.fn_for(kind, 0, 0)       # the same function declared without asyncio_fn / sync_fn
+                base = self.fn_for(kind, 0, 0, label)    # the same function declared without asyncio_fn / sync_fn
             if afn:
                 async def g(label, body):
                     H.emit(["afn", label])
                     await asyncio.sleep(0)
                     return await base.asyncio(label, body)
-                kw["asyncio_fn"] = g
+                kw["asyncio_fn"] = self.wrap_afn(g, af)
             if sfn:
                 def s(label, body):
                     H.emit(["sfn", label])
                     return base(label, body)
-                kw["sync_fn"] = s
+                kw["sync_fn"] = self.wrap_callable(s, 1 if wf == 1 else 0, False)
             f = self.adeco(**kw)(impl)
-        self.fns[(kind, afn, var)] = f
+        self.fns[key] = f
         return f
 
-    def meth_for(self, afn, var):
+    def meth_for(self, afn, var, label=None):
         """name of the method of K declared with (afn, var); bind = var // 2: 0 method, 1 classmethod, 2 staticmethod"""
-        name = "m_%d_%d" % (afn, var)
+        af = self.aform(afn, label)
+        name = "m_%d_%d" % (afn, var) + ("_f%d" % af if af else "")
         if name in self.K.__dict__:
             return name
         asyncio, H = self.asyncio, self
@@ -1526,7 +1767,8 @@ class Harness(object):
                 return getattr(H.K, base)(label, body)
             wrapped, sync_fn = staticmethod(impl), staticmethod(s)
         if afn:
-            kw["asyncio_fn"] = g
+            # (the library passes the instance / the class explicitly: an asyncio_fn need not be a function that binds)
+            kw["asyncio_fn"] = self.wrap_afn(g, af)
         if sfn:
             kw["sync_fn"] = sync_fn
         setattr(self.K, name, self.adeco(**kw)(wrapped))
@@ -1611,7 +1853,7 @@ class Harness(object):
                 raise IllFormed("no such declaration %r" % (c,))
             fn = self.pure_fn
         elif kind == "meth":
-            name = self.meth_for(afn, var)
+            name = self.meth_for(afn, var, label)
             other = label % 4 >= 2
             if var // 2 == 0:
                 fn = getattr(self.K if other else self.inst, name)
@@ -1627,7 +1869,7 @@ class Harness(object):
                 except (TypeError, copy.Error):
                     pass          # a build whose binder type cannot be copied: the wrapper itself is used
         else:
-            fn = self.fn_for(kind, afn, var)
+            fn = self.fn_for(kind, afn, var, label)
         if label % 2 == 1:
             return fn, args + (label,), {"body": p}
         return fn, args + (label, p), {}
@@ -1896,6 +2138,7 @@ class Harness(object):
         asyncio = self.asyncio
         mode = self.mode
         self.track = any(q[0] == "raiseB" for q in walk_progs(p))
+        self.root_label = c[2]
         if warm and conv in ("call", "value", "aiorun"):
             self.run_here(conv, c, p)
             self.fresh_log()
@@ -1961,6 +2204,8 @@ def run_case(case):
     import asynq.scheduler
 
     c, p = expand(case)
+    if in_open_finding(p):
+        case = drop_flags2(case)      # (wrapc / afnobj are inert inside the open findings: see `usage2`)
     lines = ["(case asyncio %d %s)" % (case["id"], sx(["task", c, p]))]
     outs = {}
     logs = {}
@@ -2052,6 +2297,13 @@ def run_case(case):
     for key, _ in USAGE_FLAGS:
         if case.get(key):
             feats.append("usage=" + key)
+    if case.get("wrapc") and has_wrapc_site(p, c):
+        feats.append("usage=wrapc")
+        if any(q[0] == "sync" and q[1][0] in WRAPC_KINDS for q in walk_progs(p)):
+            feats.append("sync-callee-is-partial-or-callable-object")
+    if case.get("afnobj") and has_child_afn(p):
+        feats.append("usage=afnobj")
+        feats.append("asyncio_fn-not-async-def=" + ("by-label" if case["afnobj"] == 1 else "form%d" % (case["afnobj"] - 1)))
     if call_var(c) // 2:
         feats.append("top=" + BIND_NAMES[call_var(c) // 2])
     if case.get("reuse") and has_repeated_const(p):
